@@ -1,18 +1,21 @@
 #!/bin/bash
-# tools/seed_verify.sh <ID> <demo-package-dir> [check-id] [name]
+# [SEED_OUT=/tmp/seed2] tools/seed_verify.sh <ID> <demo-package-dir|auto> [check-id] [name]
 # Confirms a seeded change produced by an independent sub-agent (deliverables in /tmp/seed/<ID>.out:
 # patch.diff, a *_test.go demonstration, notes.md) on a fresh scratch copy of /repo (no git state is
 # shared with the agents): suite green with the change, demo fails with it and passes without it; then
 # runs ./check against the changed copy and files everything under seeded/<name>/.
 set -u
 ID=$1; DIR=$2; CHK=${3:-$ID}; NAME=${4:-$ID}
-O=/tmp/seed/$ID.out
+O=${SEED_OUT:-/tmp/seed}/$ID.out
 W=/tmp/seedv/$ID
+mkdir -p /tmp/seedv
 ROOT=$(cd "$(dirname "$0")/.." && pwd)
 export GOFLAGS=-mod=mod GOPROXY=off
 [ -s $O/patch.diff ] || { echo "no patch.diff"; exit 2; }
 DEMO=$(ls $O/*_test.go 2>/dev/null | head -1)
 [ -n "$DEMO" ] || { echo "no demo test"; exit 2; }
+[ "$DIR" = auto ] && DIR=$(python3 -c 'import re,sys; m=re.search(r"^DEMO_DIR:\s*(\S+)", open(sys.argv[1]).read(), re.M); print(m.group(1).strip(chr(96)).removeprefix("./").rstrip("/") if m else "")' $O/notes.md)
+[ -d /repo/$DIR ] || { echo "bad demo dir '$DIR'"; exit 2; }
 rm -rf $W; mkdir -p $W; rsync -a --exclude .git /repo/ $W/
 cd $W
 git apply --whitespace=nowarn $O/patch.diff || { echo "patch does not apply"; rm -rf $W; exit 2; }
